@@ -197,7 +197,7 @@ impl Prop for C05 {
 
     fn strategy(_leg: &str, tier: Tier) -> BoxedStrategy<Case> {
         (
-            gen::weighted_usize(tier.pick(12, 40)),
+            gen::weighted_usize_big(tier.pick(12, 40)),
             gen::raw_sources(),
             any::<u64>(),
             any::<u8>(),
